@@ -250,9 +250,23 @@ def check_symbols(run, lst, ob):
         """label of a wholly deleted block followed (through further wholly
         deleted or proxy-deleted blocks) by a proxy-deleted block: the label
         may legitimately end on any of those proxies"""
-        if tok.bid is None or tok.bid not in lst.deleted_blocks:
+        if tok.bid is None:
             return None
         si, k = order[tok.bid]
+        if tok.bid not in lst.deleted_blocks:
+            # a zero-sized input block goes away together with a wholly
+            # deleted block right behind it: its labels slide like that
+            # block's
+            if lst.block_info[tok.bid]["blk"]["items"]:
+                return None
+            j = k + 1
+            while by_order.get((si, j)) is not None and not \
+                    lst.block_info[by_order[(si, j)]]["blk"]["items"]:
+                j += 1
+            nb = by_order.get((si, j))
+            if nb is None or nb not in lst.deleted_blocks or \
+                    nb in proxy_blocks:
+                return None
         found = None
         while True:
             k += 1
